@@ -206,6 +206,7 @@ type FuncResult struct {
 	Abstracted []string
 	Err        string // out-of-subset / engine error
 	Used       []string
+	SkippedThorough []string
 }
 
 func (e *Engine) VerifyFunc(key string) (res *FuncResult) {
@@ -224,7 +225,7 @@ func (e *Engine) VerifyFunc(key string) (res *FuncResult) {
 		res.Err = "function not found in the loaded program"
 		return
 	}
-	rc := &rootCtx{fn: fn, key: key, spec: spec, nameCnt: map[string]int{}, abstracted: map[string]bool{}, params: map[string]SVal{}, used: map[string]bool{}}
+	rc := &rootCtx{fn: fn, key: key, spec: spec, nameCnt: map[string]int{}, abstracted: map[string]bool{}, params: map[string]SVal{}, used: map[string]bool{}, skippedThorough: map[string]bool{}}
 	e.cur = rc
 	e.setRgn(0)
 	rc.deadline = time.Now().Add(90 * time.Second)
@@ -235,6 +236,7 @@ func (e *Engine) VerifyFunc(key string) (res *FuncResult) {
 		res.Trivial = rc.trivial
 		res.Abstracted = sortedKeys(rc.abstracted)
 		res.Used = sortedKeys(rc.used)
+		res.SkippedThorough = sortedKeys(rc.skippedThorough)
 		if r := recover(); r != nil {
 			if u, ok := r.(Unsupported); ok {
 				res.Err = u.Msg
@@ -266,14 +268,23 @@ func (e *Engine) VerifyFunc(key string) (res *FuncResult) {
 	env := e.specEnvFor(fn, spec, args, nil, &st.heap, nil, true)
 	if !spec.NoTypeInv {
 		vs, tys, names := paramInfo(fn, args)
+		e.tiAssume = true
 		for _, nt := range e.typeInvTerms(fn, vs, tys, names, &st.heap) {
 			st.assume(nt.t)
 		}
+		e.tiAssume = false
 	}
 	for _, rq := range spec.Requires {
 		t, facts := e.clauseAssume(env, rq)
 		st.assume(t)
 		st.facts = append(st.facts, facts...)
+	}
+	for _, cl := range spec.Unfolds {
+		if app := env.eval(cl.Expr).V.(Scalar).T; app.Op == OApp {
+			if def := e.recDefinition(app); def != nil {
+				st.assume(def)
+			}
+		}
 	}
 	e.flushWF(st)
 	rc.entry = st.clone()
@@ -313,6 +324,10 @@ func (e *Engine) VerifyFunc(key string) (res *FuncResult) {
 		rc.outputs = e.outputTerms(fn, rets, &st2.heap)
 		defer func() { rc.outputs = nil }()
 		for i, en := range spec.Ensures {
+			if en.Thorough && e.Tier != "thorough" {
+				rc.skippedThorough[clauseName(en, i)] = true
+				continue
+			}
 			goal, facts := e.clauseGoal(post, en)
 			s3 := st2
 			if len(facts) > 0 {
@@ -468,7 +483,9 @@ func (e *Engine) assumeGlobals(st *State) {
 		if msg := e.frozenCheck(g); msg != "" {
 			unsupported("global %s declared frozen but %s", k, msg)
 		}
-		e.assumeFrozenContents(st, g)
+		if e.frozenTable(g) == nil {
+			e.assumeFrozenContents(st, g)
+		}
 	}
 }
 
